@@ -73,6 +73,7 @@ type thread struct {
 	notified  bool
 	vc        vclock
 	polling   bool // granted a Sleep since the last progress step
+	lastRun   int  // step at which the thread was last scheduled (fair default order)
 	spawned   int  // number of children spawned (for naming)
 }
 
@@ -376,10 +377,17 @@ func (e *Exec) schedule(t *thread, finishing bool) {
 		en = append(en, t)
 		runEn = true
 	}
+	first := len(en)
 	for _, o := range e.threads {
 		if o != t && e.enabled(o) {
 			en = append(en, o)
 		}
+	}
+	// fair default continuation: among the other threads the least recently
+	// scheduled one comes first (ties by id), so that no enabled thread is
+	// starved by the default choice
+	if rest := en[first:]; len(rest) > 1 {
+		sort.SliceStable(rest, func(i, j int) bool { return rest[i].lastRun < rest[j].lastRun })
 	}
 	timePass := false
 	if len(en) == 0 {
@@ -446,6 +454,7 @@ func (e *Exec) schedule(t *thread, finishing bool) {
 			o.polling = false
 		}
 	}
+	c.lastRun = e.nsteps
 	e.apply(c)
 	if c == t {
 		return
